@@ -425,6 +425,8 @@ pub fn worker<E: Engine>(
     let text = serde_json::to_string(&report).expect("report serialises");
     let _ = writeln!(out, "{}", text);
     let _ = out.flush();
+    // (process::exit runs no destructors: give the engine's scratch tree back first)
+    drop(engine);
     if report.resume_at.is_some() {
         std::process::exit(EXIT_TAINTED);
     }
